@@ -3,6 +3,8 @@
 //! kinds of cases
 //!   resp : a handler response (status, headers, body type, chunking) through the real `Compress`
 //!          middleware; the body of the answer is polled chunk by chunk
+//!   wire : the same handler + Compress behind a real HTTP/1 connection (scripted socket); the oracle
+//!          parses the raw response bytes (framing vs. Content-Length, decoded body); no model
 //!   dec  : a request body through the real `actix_http::encoding::Decoder`
 //!   neg  : `AcceptEncoding::negotiate` / `ranked` alone (volume for the negotiation rules)
 //!   law  : the codec laws assumed by the Coq theorems, TESTED on flate2 / brotli / zstd directly
@@ -94,6 +96,10 @@ struct Case {
     /// law: seed of the operation sequence
     #[serde(default)]
     ops_seed: u64,
+    /// resp, wire: the handler announces the length of its body up front
+    /// (`HttpResponseBuilder::no_chunking(len)`: Content-Length header + NO_CHUNKING flag)
+    #[serde(default)]
+    no_chunking: bool,
 }
 
 fn runs(len: usize, seed: u64) -> Vec<u8> {
@@ -445,7 +451,7 @@ fn compressible(ctype: &str) -> bool {
 
 // -------------------------------------------------------------------------------------- resp case
 
-async fn run_resp(c: &Case) -> CaseOut {
+fn body_chunks(c: &Case) -> (Vec<u8>, Vec<Vec<u8>>) {
     let body = if c.body_type == "none" { vec![] } else { gen_body(&c.body) };
     let chunks: Vec<Vec<u8>> = match c.body_type.as_str() {
         "none" => vec![],
@@ -458,35 +464,46 @@ async fn run_resp(c: &Case) -> CaseOut {
             }
         }
     };
+    (body, chunks)
+}
+
+/// what the handler of a resp / wire case answers
+fn handler_response(c: &Case, body: Vec<u8>, chunks: Vec<Vec<u8>>, after: Rc<RefCell<usize>>) -> HttpResponse {
     let status = StatusCode::from_u16(c.status).unwrap_or(StatusCode::OK);
+    let mut b = HttpResponse::build(status);
+    if !c.ctype.is_empty() {
+        b.insert_header((header::CONTENT_TYPE, c.ctype.as_str()));
+    }
+    if let Some(ce) = &c.ce {
+        b.insert_header((header::CONTENT_ENCODING, ce.as_str()));
+    }
+    if let Some(v) = &c.vary {
+        b.insert_header((header::VARY, v.as_str()));
+    }
+    if c.no_chunking {
+        b.no_chunking(body.len() as u64);
+    }
+    match c.body_type.as_str() {
+        "none" => b.body(actix_web::body::None::new()),
+        "bytes" => b.body(Bytes::from(body)),
+        t => b.body(ChunkBody {
+            size: if t == "sized" { BodySize::Sized(body.len() as u64) } else { BodySize::Stream },
+            items: chunks.into_iter().map(Bytes::from).collect(),
+            pend: c.pend,
+            parked: false,
+            polls_after_end: after,
+            ended: false,
+        }),
+    }
+}
+
+async fn run_resp(c: &Case) -> CaseOut {
+    let (body, chunks) = body_chunks(c);
     let after_end = Rc::new(RefCell::new(0usize));
     let (c2, chunks2, body2, after2) = (c.clone(), chunks.clone(), body.clone(), after_end.clone());
     let app = test::init_service(App::new().wrap(Compress::default()).default_service(web::to(move || {
         let (c, chunks, body, after) = (c2.clone(), chunks2.clone(), body2.clone(), after2.clone());
-        async move {
-            let mut b = HttpResponse::build(status);
-            if !c.ctype.is_empty() {
-                b.insert_header((header::CONTENT_TYPE, c.ctype.as_str()));
-            }
-            if let Some(ce) = &c.ce {
-                b.insert_header((header::CONTENT_ENCODING, ce.as_str()));
-            }
-            if let Some(v) = &c.vary {
-                b.insert_header((header::VARY, v.as_str()));
-            }
-            match c.body_type.as_str() {
-                "none" => b.body(actix_web::body::None::new()),
-                "bytes" => b.body(Bytes::from(body)),
-                t => b.body(ChunkBody {
-                    size: if t == "sized" { BodySize::Sized(body.len() as u64) } else { BodySize::Stream },
-                    items: chunks.into_iter().map(Bytes::from).collect(),
-                    pend: c.pend,
-                    parked: false,
-                    polls_after_end: after,
-                    ended: false,
-                }),
-            }
-        }
+        async move { handler_response(&c, body, chunks, after) }
     })))
     .await;
     let mut tr = TestRequest::get().uri("/");
@@ -499,6 +516,7 @@ async fn run_resp(c: &Case) -> CaseOut {
     let r_vary: Vec<Vec<u8>> = res.headers().get_all(header::VARY).map(|v| v.as_bytes().to_vec()).collect();
     let r_cl = res.headers().get(header::CONTENT_LENGTH).map(|v| v.as_bytes().to_vec());
     let r_size = res.response().body().size();
+    let r_no_chunking = !res.response().head().chunked();
     let body_stream = res.into_body();
     actix_rt::pin!(body_stream);
     let mut got: Vec<Vec<u8>> = vec![];
@@ -592,8 +610,14 @@ async fn run_resp(c: &Case) -> CaseOut {
                 if !r_vary.iter().any(|v| String::from_utf8_lossy(v).to_ascii_lowercase().contains("accept-encoding")) {
                     fail("encoded response without Vary: accept-encoding".into());
                 }
-                if r_size != BodySize::Stream || r_cl.is_some() {
+                // (a Content-Length HEADER put there by the handler stays in head.headers at this
+                // level; the h1 encoder drops it iff the size is Stream and chunking is enabled:
+                // see the wire family)
+                if r_size != BodySize::Stream || (r_cl.is_some() && !c.no_chunking) {
                     fail(format!("encoded response still announces a length ({r_size:?}, {r_cl:?})"));
+                }
+                if r_no_chunking {
+                    fail("encoded response with chunking still disabled: the handler's stale Content-Length would be sent".into());
                 }
                 if !compressible(&c.ctype) {
                     fail("image/video content type was compressed".into());
@@ -633,12 +657,13 @@ async fn run_resp(c: &Case) -> CaseOut {
         (_, n) => format!("(SzSized {n})"),
     };
     let coq_case = format!(
-        "CResp {} {} {} {} {} {} {} {} {} []",
+        "CResp {} {} {} {} {} {} {} {} {} {} []",
         ae_term,
         coq_bool(compressible(&c.ctype)),
         c.status,
         coq_opt(&handler_ce, |s| coq_bytes(s.as_bytes())),
         coq_list(&c.vary.iter().collect::<Vec<_>>(), |s| coq_bytes(s.as_bytes())),
+        coq_bool(c.no_chunking),
         size_term,
         coq_list(&chunks, |x| coq_bchunk(x)),
         coq_list(&takes, |x| coq_tok(x)),
@@ -655,7 +680,7 @@ async fn run_resp(c: &Case) -> CaseOut {
         V::T(
             "resp",
             vec![
-                V::T("head", vec![V::n(r_status), V::opt(r_ce.as_ref(), V::h), V::L(r_vary.iter().map(V::h).collect())]),
+                V::T("head", vec![V::n(r_status), V::opt(r_ce.as_ref(), V::h), V::L(r_vary.iter().map(V::h).collect()), V::b(r_no_chunking)]),
                 v_size,
                 V::L(got.iter().map(|g| v_tok(g)).collect()),
                 V::b(!err),
@@ -696,6 +721,167 @@ async fn run_resp(c: &Case) -> CaseOut {
         known_class,
         nontrivial: encoded && chunks.len() >= 2,
         tags,
+        ..Default::default()
+    }
+}
+
+
+// -------------------------------------------------------------------------------------- wire case
+
+struct RawResponse {
+    status: u16,
+    headers: Vec<(String, String)>,
+    /// bytes after the header block, exactly as written to the socket
+    raw_body: Vec<u8>,
+}
+impl RawResponse {
+    fn all(&self, name: &str) -> Vec<&str> {
+        self.headers.iter().filter(|(k, _)| k.eq_ignore_ascii_case(name)).map(|(_, v)| v.as_str()).collect()
+    }
+}
+fn parse_raw(raw: &[u8]) -> Result<RawResponse, String> {
+    let end = raw.windows(4).position(|w| w == b"\r\n\r\n").ok_or("no end of response head")?;
+    let head = std::str::from_utf8(&raw[..end]).map_err(|_| "head is not utf-8")?;
+    let mut lines = head.split("\r\n");
+    let status_line = lines.next().ok_or("no status line")?;
+    let status: u16 = status_line.split(' ').nth(1).and_then(|s| s.parse().ok()).ok_or("bad status line")?;
+    let mut headers = vec![];
+    for l in lines {
+        let (k, v) = l.split_once(':').ok_or("bad header line")?;
+        headers.push((k.trim().to_string(), v.trim().to_string()));
+    }
+    Ok(RawResponse { status, headers, raw_body: raw[end + 4..].to_vec() })
+}
+fn dechunk(mut raw: &[u8]) -> Result<Vec<u8>, String> {
+    let mut out = vec![];
+    loop {
+        let eol = raw.windows(2).position(|w| w == b"\r\n").ok_or("chunk size line missing")?;
+        let size_str = std::str::from_utf8(&raw[..eol]).map_err(|_| "chunk size not utf-8")?;
+        let size = usize::from_str_radix(size_str.split(';').next().unwrap_or("").trim(), 16).map_err(|_| "bad chunk size")?;
+        raw = &raw[eol + 2..];
+        if size == 0 {
+            return if raw == b"\r\n" { Ok(out) } else { Err(format!("{} bytes after the last chunk", raw.len())) };
+        }
+        if raw.len() < size + 2 || &raw[size..size + 2] != b"\r\n" {
+            return Err("chunk shorter than announced".into());
+        }
+        out.extend_from_slice(&raw[..size]);
+        raw = &raw[size + 2..];
+    }
+}
+
+/// the same handler + Compress behind a real HTTP/1 connection (scripted socket); the oracle reads
+/// the raw bytes written to the socket. No model evaluation (framing is C02's model).
+async fn run_wire(c: &Case) -> CaseOut {
+    use vh::h1conn::{Conn, ConnCfg, ConnPoll, ScriptIo};
+    let (body, chunks) = body_chunks(c);
+    let after_end = Rc::new(RefCell::new(0usize));
+    let (c2, chunks2, body2, after2) = (c.clone(), chunks.clone(), body.clone(), after_end.clone());
+    let io = ScriptIo::new();
+    let factory = actix_service::map_config(
+        App::new().wrap(Compress::default()).default_service(web::to(move || {
+            let (c, chunks, body, after) = (c2.clone(), chunks2.clone(), body2.clone(), after2.clone());
+            async move { handler_response(&c, body, chunks, after) }
+        })),
+        |_| actix_web::dev::AppConfig::default(),
+    );
+    let mut conn = Conn::start(ConnCfg::default(), io.clone(), factory).await;
+    let mut req = String::from("GET / HTTP/1.1\r\nhost: localhost\r\nconnection: close\r\n");
+    if let Some(ae) = &c.ae {
+        req.push_str(&format!("accept-encoding: {ae}\r\n"));
+    }
+    req.push_str("\r\n");
+    io.push_read(req.as_bytes());
+    let mut outcome = ConnPoll::Pending;
+    for _ in 0..200_000 {
+        outcome = conn.poll();
+        if outcome != ConnPoll::Pending {
+            break;
+        }
+        if conn.woken() == 0 {
+            // waiting for the blocking pool
+            tokio::time::sleep(std::time::Duration::from_millis(1)).await;
+        } else {
+            tokio::task::yield_now().await;
+        }
+    }
+    let raw = io.take_written();
+
+    let mut why = String::new();
+    let mut fail = |m: String| {
+        if why.is_empty() {
+            why = m;
+        }
+    };
+    let mut show = format!("conn={outcome:?} written={}", raw.len());
+    let mut framing = "none";
+    let mut label = String::new();
+    if outcome == ConnPoll::Pending {
+        fail("connection did not finish".into());
+    }
+    match parse_raw(&raw) {
+        Err(e) => fail(format!("response on the wire does not parse: {e}")),
+        Ok(r) => {
+            let cl = r.all("content-length");
+            let te = r.all("transfer-encoding");
+            let ce = r.all("content-encoding");
+            label = ce.first().map(|s| s.to_string()).unwrap_or_default();
+            show = format!("{} ce={:?} cl={:?} te={:?} raw_body={}", r.status, ce, cl, te, r.raw_body.len());
+            if cl.len() > 1 || te.len() > 1 || ce.len() > 1 {
+                fail("duplicate framing / coding headers".into());
+            }
+            if !cl.is_empty() && !te.is_empty() {
+                fail("both Content-Length and Transfer-Encoding on the wire".into());
+            }
+            // the framed body
+            let framed: Result<Vec<u8>, String> = if te.first().map_or(false, |t| t.eq_ignore_ascii_case("chunked")) {
+                framing = "chunked";
+                dechunk(&r.raw_body)
+            } else if let Some(l) = cl.first() {
+                framing = "content-length";
+                match l.parse::<usize>() {
+                    // the connection is closed after this response: everything after the head is body
+                    Ok(n) if n == r.raw_body.len() => Ok(r.raw_body.clone()),
+                    Ok(n) => Err(format!("Content-Length {n} on the wire but {} body bytes were sent (handler body: {} bytes)", r.raw_body.len(), body.len())),
+                    Err(_) => Err(format!("unparsable Content-Length {l}")),
+                }
+            } else {
+                framing = "eof";
+                Ok(r.raw_body.clone())
+            };
+            match framed {
+                Err(e) => fail(e),
+                Ok(framed) => {
+                    if r.status != 406 {
+                        if r.status != c.status {
+                            fail(format!("status {} -> {}", c.status, r.status));
+                        }
+                        // a Content-Encoding set by the handler describes the handler's own bytes
+                        let coding = if label.is_empty() || c.ce.is_some() { "identity" } else { label.as_str() };
+                        match whole_decode(coding, &framed) {
+                            Ok(d) if d == body => {}
+                            Ok(d) => fail(format!("framed body decodes ({coding}) to {} bytes, handler body has {}", d.len(), body.len())),
+                            Err(e) => fail(format!("framed body does not decode with {coding}: {e}")),
+                        }
+                    }
+                }
+            }
+        }
+    }
+    CaseOut {
+        sig: format!("wire|{show}"),
+        impl_show: show,
+        oracle_ok: why.is_empty(),
+        oracle_why: why,
+        nontrivial: !label.is_empty(),
+        tags: vec![
+            "kind:wire".into(),
+            format!("framing:{framing}"),
+            format!("coding:{}", if label.is_empty() { "none" } else { &label }),
+            format!("announced-length:{}", c.no_chunking),
+            format!("body:{}", c.body_type),
+            format!("sched:{}", if c.pend { "pending" } else { "ready" }),
+        ],
         ..Default::default()
     }
 }
@@ -1012,6 +1198,22 @@ fn gen_case(rng: &mut Rng, thorough: bool) -> Case {
                 random_cuts(rng, len)
             };
             c.pend = rng.chance(1, 3);
+            c.no_chunking = rng.chance(1, 4);
+            // a single large incompressible chunk (the compressor's output buffer fills inside one write)
+            if rng.chance(1, 16) {
+                c.ae = Some(rng.pick(&["gzip", "deflate", "br", "zstd"]).to_string());
+                c.status = 200;
+                c.ce = None;
+                c.ctype = "application/octet-stream".into();
+                c.body = BodySpec { kind: "rand".into(), len: *rng.pick(&[65536usize, 262144]), seed: rng.next() % 1000 };
+                c.cuts = vec![];
+                c.body_type = rng.pick(&["bytes", "stream"]).to_string();
+            }
+            // the same response also over a real connection
+            if rng.chance(1, 4) && !matches!(c.status, 101 | 204 | 206) && c.ae.as_ref().map_or(true, |a| parse_ae(a).is_some() && !a.trim().is_empty()) {
+                c.kind = "wire".into();
+                c.no_chunking = rng.chance(1, 2);
+            }
         }
         4 | 5 => {
             c.kind = "dec".into();
@@ -1052,6 +1254,7 @@ fn emit_case(em: &mut Emitter, id: String, c: Case) {
             let fut = async {
                 match c2.kind.as_str() {
                     "resp" => run_resp(&c2).await,
+                    "wire" => run_wire(&c2).await,
                     "dec" => run_dec(&c2).await,
                     "neg" => run_neg(&c2),
                     _ => run_law(&c2),
